@@ -215,6 +215,14 @@ pub fn run(tier: Tier) -> i32 {
                 al.push(("4reps corrupt in the middle".into(), RawOp::Dec(Hex(c))));
             }
         }
+        {
+            // ill-formed: a copy that reaches back before the start of ITS OWN output (distance 3 after one byte; within every
+            // dictionary used here): a new decoder refuses it; a reused one must not find bytes of an earlier stream there
+            let mut m = enc::Model::new(p.lc, p.lp, p.pb).with_dict(1 << 20);
+            m.wrong_zeros_outside_window = true;
+            let payload = enc::encode_with(&mut m, &[Sym::L(0x41), Sym::M(3, 2), Sym::L(0x45), Sym::E]).payload;
+            al.push(("one literal, a copy at distance 3 (before the start of this stream's output), a literal, end marker".into(), RawOp::Dec(Hex(payload))));
+        }
         al.push(("reset(None)".into(), RawOp::Reset));
         for s in sizes {
             al.push((format!("reset(Some({:?}))", s), RawOp::ResetSize(s)));
